@@ -106,7 +106,7 @@ func rulesC03(c *Ctx) {
 	R.Rule("R2", "quote-state op writes PAID only behind state == UNPAID, successful invoice lookup for the quote's hash, Settled", 4)
 	R.Rule("R3", "NUT-20: signing cut by {no pubkey, VerifyMintQuoteSignature(parsed sig, quote id, signed outputs, pubkey)}; sign/verify message agreement", 3)
 	R.Rule("R4", "from signing onward every success return passes successful ISSUED write and successful signature save", 2)
-	R.Rule("R5", "writer census of the mint-quote state against the allowed transitions", 6)
+	R.Rule("R5", "writer census of the mint-quote state against the allowed transitions", 4)
 	R.Rule("R6", "check-then-act pairs on the mint-quote state are protected by compare-and-swap or lock", 3)
 	R.Rule("R7", "signature save is the last fallible step and is atomic", 5)
 	R.Rule("R8", "mint signs only behind overflow-checked OUT <= stored quote amount (at most the quoted amount)", 3)
@@ -733,12 +733,18 @@ func (c *Ctx) ruleQuotePaidWrite(rule string) {
 				R.Check(rule, fk, siteDesc(c, s)+" <= "+cd.Name, c.P.InstrPos(s.Instr), ok, "quote-state op writes the state only behind ["+cd.Name+"]", why)
 			}
 			if s.Direct {
-				o := c.P.OriginsOf(s.Instr.Parent())
+				// (a write inside a helper new on this tree is read with the arguments of each call of the operation)
+				c.OpContexts(quoteOp)
 				d := c.P.Describe(s.Instr)
-				val, id := o.Of(d.Args[1]), o.Of(d.Args[0])
+				okW, whyW := true, ""
+				for _, o := range c.CtxsOf(s.Instr) {
+					val, id := o.Of(d.Args[1]), o.Of(d.Args[0])
+					if !(isConst(val, st["Paid"]) && isField(id, "Id") && isRec(id.Args[0])) {
+						okW, whyW = false, "writes "+short(val.String(), 60)+" for "+short(id.String(), 100)
+					}
+				}
 				R.Check(rule, fk, siteDesc(c, s)+" writes PAID for that quote", c.P.InstrPos(s.Instr),
-					isConst(val, st["Paid"]) && isField(id, "Id") && isRec(id.Args[0]), "the value written is the constant PAID, for the id of the record that was read",
-					"writes "+short(val.String(), 60)+" for "+short(id.String(), 100))
+					okW, "the value written is the constant PAID, for the id of the record that was read", whyW)
 			}
 		}
 	}
